@@ -328,31 +328,39 @@ def pushLine : P String := do
   let v := v.diffIf (!(mg == g')) s!"{comp} graph_after_call"
   return v.render
 
-/-- `coop d n (rows cols entries)* | err [disc entries]` -/
+/-- `coop d | S A graph | nT (rows cols entries)* | nB (tag actionTag rows cols)* | err [disc entries]` -/
 def coopLine : P String := do
-  let d ← P.x; let n ← P.nat
-  let mats ← P.rep (do let r ← P.nat; let c ← P.nat; tab2 r c) n
-  P.bar
+  let d ← P.x; P.bar
+  let S ← P.nats; let A ← P.nats; let g ← graphP S A; P.bar
+  let mats ← P.list (do let r ← P.nat; let c ← P.nat; let e ← tab2 r c; pure (Mat.mk r c e)); P.bar
+  let bases ← P.list (do let t ← tagP; let atg ← tagP; let r ← P.nat; let c ← P.nat; pure (Basis.mk t atg r c)); P.bar
   let err ← P.tok
   let threw := err != "none"
   let comp := "Factored::MDP::CooperativeModel::ctor"
   let post ← (if threw then pure none else (do
       let dd ← P.x
-      let ms ← mats.mapM (fun m => tab2 m.length ((m.getD 0 []).length))
+      let ms ← mats.mapM (fun m => tab2 m.rows m.cols)
       pure (some (dd, ms))) : P (Option (XRat × List Tab2)))
   P.eof
-  if mats.any (fun m => m.any illRow) then return "skip ill_conditioned" else
-  let mthrew := (AITB.Gen.Guards.ctor_CooperativeModel_checksDiscount && (discGuard .dense).eval d)
-                || mats.any (fun m => m.any (fun row => !(isProbLoop row)))
+  if mats.any (fun m => m.ent.any illRow) then return "skip ill_conditioned" else
+  let maccept := coopAccepts AITB.Gen.Guards.ctor_CooperativeModel_checksDiscount g mats bases d
   let v : Verdict := { tag := "coop " ++ err }
   let v := v.failIf (threw && err != "invalid_argument") s!"{comp} wrong_exception_class {err}"
+  let okTag (space tag : List Nat) : Bool :=
+      tag != [] && tag.all (fun k => decide (k < space.length)) && (tag.zip (tag.drop 1)).all (fun (a, b) => decide (a < b))
   let v := match post with
     | none => v
     | some (dd, ms) =>
         let v := v.failIf (!(inUnitB dd)) s!"{comp} {discKind dd} {dd}"
         let v := v.failIf (!(ms.all fun m => m.all (rowDistB slack))) s!"{comp} stored_row_not_distribution"
-        v.diffIf (!(xeq dd d) || !(ms == mats)) s!"{comp} constructed_state"
-  let v := v.diffIf (mthrew != threw) s!"{comp} outcome model={errOfBool mthrew} impl={err}"
+        -- an accepted model is well formed: one matrix per feature with the graph's shape, well-formed reward bases
+        let v := v.failIf (!(g.parents.length == S.length && mats.length == S.length &&
+                    (List.range S.length).all (fun i => (mats.getD i default).rows == g.sizes.getD i 0 && (mats.getD i default).cols == S.getD i 0)))
+                  s!"{comp} accepted_malformed_transition_function"
+        let v := v.failIf (!(bases.all fun b => okTag A b.actionTag && okTag S b.tag && b.cols == spacePartial A b.actionTag && b.rows == spacePartial S b.tag))
+                  s!"{comp} accepted_malformed_reward_basis"
+        v.diffIf (!(xeq dd d) || !(ms == mats.map Mat.ent)) s!"{comp} constructed_state"
+  let v := v.diffIf (maccept == threw) s!"{comp} outcome model={errOfBool (!maccept)} impl={err}"
   return v.render
 
 /-- `guards` : static look at the generated guard table (no implementation output involved): one verdict -/
